@@ -301,6 +301,14 @@ EXTRA5 = {
     "C18": " Fifth session: the class-level constructors Polygon.from_union / from_intersection / from_difference are under contract (left fold of the named operation over the items in order, requested name and mesh flag, items neither written nor shared) and in the native oracle (three-operand chains against point-wise membership).",
     "C19": " Fifth session: a rejection may only happen before the run starts - the per-step boundary update (update_mu_boundary, run after the output was created) answers for every current assignment and never raises a validation error; native: currents given as a function of time that are balanced at t = 0 and unbalanced later are refused before any file exists.",
 }
+EXTRA5["C20"] = (" Fifth session: the default-area branch of biot_savart_2d (areas=None: 'the positions are triangulated to calculate vertex areas') is under the call contract - the Delaunay "
+                 "triangulation is of the given positions (in metres), the mesh is built from THESE positions and THAT triangulation, the kernel gets its cell areas as they are. On the pinned tree the "
+                 "branch raised for every input (x and y columns handed over as two arguments): genuine defect, repaired by fix: commit 30f551c. Natives: areas=None against explicit cell areas; "
+                 "2600 points at different heights in one call = in pieces = in reversed order (potential of the currents, field).")
+EXTRA5["C18"] += " Native: small finely sampled shapes 1e3 .. 5e4 from the origin keep area and vertex count under translation / rotation."
+EXTRA5["C07"] += " The bounded family includes a device laid out 5e5 coherence lengths from the origin."
+EXTRA5["C08"] += " Native history: one options object reused for a run in other units - what the first Solution reports (units, applied potential, currents in SI) does not change."
+EXTRA5["C05"] = " Fifth session: numpy model has isclose over the reals (so a tolerance-based 'is the final frame a regular save' test fails the named obligations of the Solution.times unit); native: other time scales (1e-9, 2e3) and a final partial interval that is tiny against the elapsed time."
 for _k, _v in EXTRA5.items():
     CLAIMS[_k]["text"] = CLAIMS[_k]["text"] + _v
 
